@@ -548,7 +548,80 @@ out:
 /* The duration / order time / loop counter oracle under a configuration: a fresh context, the module loaded,
  * the configuration applied (a rescan happens inside the library where the configuration calls for one), then every
  * sequence rendered from its entry point.  Only the oracle lines are kept, tagged with the configuration. */
-enum { CFG_CFLAGS_VBLANK, CFG_CFLAGS_OFF, CFG_FLAGS_LOAD, CFG_MODE, CFG_VOICES, CFG_MODE_VOICES };
+enum { CFG_CFLAGS_VBLANK, CFG_CFLAGS_OFF, CFG_FLAGS_LOAD, CFG_MODE, CFG_VOICES, CFG_MODE_VOICES, CFG_REFUSED };
+
+/* What the library reports about the scan: a refused xmp_set_player() must leave all of it exactly as it was. */
+struct scan_snap {
+	int nseq, len, quirk, read_event_type, flow_mode, period_type, mode, flags;
+	int ep[256], dur[256], sord[256], srow[256], snum[256], stime[256];
+	int otime[256], ospeed[256], obpm[256];
+};
+
+static void take_snap(struct context_data *ctx, struct scan_snap *sn)
+{
+	struct module_data *m = &ctx->m;
+	struct player_data *p = &ctx->p;
+	int k;
+
+	memset(sn, 0, sizeof(*sn));
+	sn->nseq = m->num_sequences;
+	sn->len = m->mod.len;
+	sn->quirk = m->quirk;
+	sn->read_event_type = m->read_event_type;
+	sn->flow_mode = m->flow_mode;
+	sn->period_type = m->period_type;
+	sn->mode = p->mode;
+	sn->flags = p->flags;
+	for (k = 0; k < m->num_sequences && k < 256; k++) {
+		sn->ep[k] = m->seq_data[k].entry_point;
+		sn->dur[k] = m->seq_data[k].duration;
+		sn->sord[k] = p->scan[k].ord;
+		sn->srow[k] = p->scan[k].row;
+		sn->snum[k] = p->scan[k].num;
+		sn->stime[k] = p->scan[k].time;
+	}
+	for (k = 0; k < m->mod.len && k < 256; k++) {
+		sn->otime[k] = m->xxo_info[k].time;
+		sn->ospeed[k] = m->xxo_info[k].speed;
+		sn->obpm[k] = m->xxo_info[k].bpm;
+	}
+}
+
+/* 0 if nothing changed; otherwise one oracle line naming the first difference */
+static int same_snap(struct context_data *ctx, const struct scan_snap *a, const char *what, const char *tag)
+{
+	struct scan_snap b;
+	int k;
+
+	take_snap(ctx, &b);
+	if (a->nseq != b.nseq || a->len != b.len) {
+		printf("oracle_fail refused_changed %s: %d sequences / %d orders before, %d / %d after cfg %s\n", what, a->nseq, a->len, b.nseq, b.len, tag);
+		return 1;
+	}
+	if (a->quirk != b.quirk || a->read_event_type != b.read_event_type || a->flow_mode != b.flow_mode ||
+	    a->period_type != b.period_type || a->mode != b.mode || a->flags != b.flags) {
+		printf("oracle_fail refused_changed %s: player mode / quirks / flags changed (mode %d -> %d quirk %x -> %x) cfg %s\n", what,
+		       a->mode, b.mode, a->quirk, b.quirk, tag);
+		return 1;
+	}
+	for (k = 0; k < a->nseq && k < 256; k++) {
+		if (a->ep[k] != b.ep[k] || a->dur[k] != b.dur[k] || a->sord[k] != b.sord[k] || a->srow[k] != b.srow[k] ||
+		    a->snum[k] != b.snum[k] || a->stime[k] != b.stime[k]) {
+			printf("oracle_fail refused_changed %s: seq %d ep %d dur %d end %d %d %d time %d -> ep %d dur %d end %d %d %d time %d cfg %s\n",
+			       what, k, a->ep[k], a->dur[k], a->sord[k], a->srow[k], a->snum[k], a->stime[k],
+			       b.ep[k], b.dur[k], b.sord[k], b.srow[k], b.snum[k], b.stime[k], tag);
+			return 1;
+		}
+	}
+	for (k = 0; k < a->len && k < 256; k++) {
+		if (a->otime[k] != b.otime[k] || a->ospeed[k] != b.ospeed[k] || a->obpm[k] != b.obpm[k]) {
+			printf("oracle_fail refused_changed %s: order %d time %d speed %d bpm %d -> %d %d %d cfg %s\n", what, k,
+			       a->otime[k], a->ospeed[k], a->obpm[k], b.otime[k], b.ospeed[k], b.obpm[k], tag);
+			return 1;
+		}
+	}
+	return 0;
+}
 
 static void run_cfg(const char *path, int kind, int arg, int rate, int maxframes)
 {
@@ -558,11 +631,13 @@ static void run_cfg(const char *path, int kind, int arg, int rate, int maxframes
 	struct player_data *p = &ctx->p;
 	char tag[64];
 	int k, nok = 0, flags, rc = 0;
+	static struct scan_snap snap;
 
 	if (xmp_load_module(opaque, path) != 0) {
 		xmp_free_context(opaque);
 		return;
 	}
+	take_snap(ctx, &snap);
 	switch (kind) {
 	case CFG_CFLAGS_VBLANK:
 	case CFG_CFLAGS_OFF:
@@ -607,13 +682,50 @@ static void run_cfg(const char *path, int kind, int arg, int rate, int maxframes
 		if (rc == 0)
 			rc = xmp_set_player(opaque, XMP_PLAYER_VOICES, arg >> 8);
 		break;
+	case CFG_REFUSED: {
+		/* calls the library must refuse -- invalid values, wrong state -- before, while and after playing: each must
+		 * return an error and change nothing */
+		static const int bad[][2] = {
+			{ XMP_PLAYER_MODE, 11 }, { XMP_PLAYER_MODE, -1 }, { XMP_PLAYER_INTERP, 99 }, { XMP_PLAYER_AMP, 9 },
+			{ XMP_PLAYER_MIX, 1000 }, { XMP_PLAYER_VOLUME, 999 }, { XMP_PLAYER_VOICES, 8 }, { XMP_PLAYER_DEFPAN, 50 },
+			{ XMP_PLAYER_SMPCTL, 1 }, { 9999, 0 },
+		};
+		size_t b;
+		char what[48];
+		snprintf(tag, sizeof(tag), "refused_calls");
+		/* not playing: everything but VOICES is a state error */
+		if (xmp_set_player(opaque, XMP_PLAYER_MODE, XMP_MODE_ST3) == 0 || xmp_set_player(opaque, XMP_PLAYER_CFLAGS, XMP_FLAGS_VBLANK) == 0)
+			printf("oracle_fail refused_accepted: xmp_set_player(MODE / CFLAGS) accepted while not playing cfg %s\n", tag);
+		same_snap(ctx, &snap, "MODE/CFLAGS while not playing", tag);
+		if (xmp_start_player(opaque, rate, XMP_FORMAT_MONO | XMP_FORMAT_8BIT) != 0)
+			goto out;
+		for (k = 0; k < arg; k++) {
+			if (xmp_play_frame(opaque) != 0)
+				break;
+		}
+		for (b = 0; b < sizeof(bad) / sizeof(bad[0]); b++) {
+			snprintf(what, sizeof(what), "xmp_set_player(%d, %d)", bad[b][0], bad[b][1]);
+			if (xmp_set_player(opaque, bad[b][0], bad[b][1]) == 0)
+				printf("oracle_fail refused_accepted: %s accepted while playing cfg %s\n", what, tag);
+			if (same_snap(ctx, &snap, what, tag))
+				break;
+		}
+		xmp_end_player(opaque);
+		rc = 0;
+		break; }
 	default:
 		snprintf(tag, sizeof(tag), "voices%d", arg);
 		rc = xmp_set_player(opaque, XMP_PLAYER_VOICES, arg);
 		break;
 	}
-	if (rc != 0)
-		goto out;		/* the library refused the configuration: nothing changed */
+	if (rc != 0) {
+		/* the library refused the configuration (a player mode under which nothing is playable, …): everything it
+		 * reports about the scan must be exactly what it was, and still equal what is rendered */
+		size_t n = strlen(tag);
+		snprintf(tag + n, sizeof(tag) - n, "_refused");
+		if (kind != CFG_FLAGS_LOAD)
+			same_snap(ctx, &snap, "refused configuration", tag);
+	}
 	if (kind == CFG_CFLAGS_VBLANK) {
 		/* the rescan itself, for the correspondence with the model (scan with the VBlank flag set) */
 		printf("vscan nseq %d\n", m->num_sequences);
@@ -709,10 +821,10 @@ int main(int argc, char **argv)
 			/* a restart position and a 0xff order in a format without markers: the player modes that set
 			 * QUIRK_MARKER turn that order into an end marker (regression: 4bf9f85) */
 			int marker_mode_matters = 0;
-			if (!(m->quirk & QUIRK_MARKER) && mod->rst != 0) {
+			if (!(m->quirk & QUIRK_MARKER)) {
 				for (i = 0; i < mod->len; i++) {
-					if (mod->xxo[i] == 0xff)
-						marker_mode_matters = 1;
+					if (mod->xxo[i] >= 0xfe)
+						marker_mode_matters = 1;	/* also decides what is playable: the mode may be refused */
 				}
 			}
 			for (q = q ? q + 1 : argv[a]; *q; q++)
@@ -727,6 +839,7 @@ int main(int argc, char **argv)
 				size_t n = strlen(argv[a]);
 				int is_it = n > 3 && strcmp(argv[a] + n - 3, ".it") == 0;
 				run_cfg(argv[a], CFG_CFLAGS_VBLANK, 0, rate, maxframes);
+				run_cfg(argv[a], CFG_REFUSED, (int)((sd >> 40) % 50), rate, maxframes);
 				run_cfg(argv[a], (sd >> 8) & 1 ? CFG_CFLAGS_OFF : CFG_FLAGS_LOAD, 0, rate, maxframes);
 				static const int mmode[4] = { XMP_MODE_S3M, XMP_MODE_ST3, XMP_MODE_ST3GUS, XMP_MODE_IT };
 				if (strstr(argv[a], "/corpus/") != NULL) {
